@@ -126,7 +126,7 @@ func preserved(in *oracleIn, tb, ta *TableDump, specName string, useGen bool) (v
 			// converted (not judged), but every NULL must have become the default
 			if cb.Hidden == 0 && ca.Hidden == 0 && !cb.NotNull && ca.NotNull && ca.Dflt != "" &&
 				!strings.Contains(strings.ToUpper(ca.Dflt), "CURRENT_") && len(tb.Rows) == len(ta.Rows) {
-				if d, err := evalDefault(in.ctx, ca.Type, ca.Dflt); err == nil {
+				if d, err := evalDefault(in.ctx, ca.Type, ca.Dflt, strictSQL(ta.SQL[0])); err == nil {
 					nb, na := 0, 0
 					for _, r := range tb.Rows {
 						if r[bi] == "NULL" {
@@ -164,7 +164,7 @@ func preserved(in *oracleIn, tb, ta *TableDump, specName string, useGen bool) (v
 			}
 			if !cb.NotNull && ca.NotNull && ca.Dflt != "" {
 				p.coalesce = true
-				d, err := evalDefault(in.ctx, ca.Type, ca.Dflt)
+				d, err := evalDefault(in.ctx, ca.Type, ca.Dflt, strictSQL(ta.SQL[0]))
 				if err != nil || strings.Contains(strings.ToUpper(ca.Dflt), "CURRENT_") {
 					// not evaluable outside the table / not deterministic: the column is left out
 					p.skip = true
